@@ -17,7 +17,7 @@ PID = "C07"
 LEVEL = "exploration"
 RULE = (
     "Rows of a seeded covering array (pairwise quick / 3-wise thorough, coverage verified and reported) over kernel x resampler x "
-    "clustering x {vectorised, scalar, scalar+blobs} x boundary types {none, periodic, reflective, both} x metric {ESS, vv 0.3, vv 2} x "
+    "clustering x {vectorised, scalar, scalar+blob, scalar+two blobs} x boundary types {none, periodic, reflective, both} x metric {ESS, vv 0.3, vv 2} x "
     "zero-likelihood region on/off x d in {1,2,3,6}; each row is one full Sampler.run on an instrumented target with a case seed. "
     "Non-trivial = a run in which some mutation call had both accepted and rejected walkers. distinct = distinct (row, seed)."
 )
@@ -49,14 +49,15 @@ def check_records(t, u, x, logl, blobs, where, need_u=True):
             raise Violation(f"{where}: particle {i}: stored logl={logl[i]!r} but the likelihood at its x is {li!r}",
                             sig={"kind": "logl-mismatch", "where": where.split(':')[0]})
         if blobs is not None:
-            bi = t.blob_row(x[i])
-            if not (float(np.asarray(blobs[i]).ravel()[0]) == bi):
-                raise Violation(f"{where}: particle {i}: stored blob={blobs[i]!r} but blob(x)={bi!r}",
+            bi = np.array(t.blob_vec(x[i]))
+            got = np.asarray(blobs[i], dtype=float).ravel()
+            if got.shape != bi.shape or not np.array_equal(got, bi):
+                raise Violation(f"{where}: particle {i}: stored blob={blobs[i]!r} but blob(x)={bi.tolist()!r}",
                                 sig={"kind": "blob-mismatch", "where": where.split(':')[0]})
     return n
 
 
-def row_to_cfg(row, d):
+def row_to_cfg(row, d, seed=None):
     cfg = dict(sample=row["kernel"], resample=row["resample"], clustering=row["clustering"], n_particles=row.get("n_particles", 24),
                cluster_every=row.get("cluster_every", 1), n_max_clusters=row.get("n_max_clusters"),
                split_threshold=row.get("split_threshold", 1.0), normalize=row.get("normalize", True))
@@ -64,12 +65,16 @@ def row_to_cfg(row, d):
     if m != "ess":
         cfg["volume_variation"] = float(m[2:])
     b = row.get("boundary", "none")
+    # which coordinates carry the boundary condition varies with the case seed (not always the first / the last one)
+    pi, ri = (0, d - 1) if seed is None else (int(seed) % d, (int(seed) // 7) % d)
+    if b == "both" and pi == ri:
+        ri = (pi + 1) % d
     if b == "periodic":
-        cfg["periodic"] = [0]
+        cfg["periodic"] = [pi]
     elif b == "reflective":
-        cfg["reflective"] = [d - 1]
+        cfg["reflective"] = [ri]
     elif b == "both":
-        cfg["periodic"], cfg["reflective"] = [0], [d - 1]
+        cfg["periodic"], cfg["reflective"] = [pi], [ri]
     return cfg
 
 
@@ -77,8 +82,8 @@ class Coherence(RowCheck):
     name = "coherence"
     FACTORS = {
         "kernel": ["tpcn", "rwm"], "resample": ["mult", "syst"], "clustering": [False, True],
-        "mode": ["vector", "scalar", "blobs"], "boundary": ["none", "periodic", "reflective", "both"],
-        "metric": ["ess", "vv0.3", "vv2"], "zero": [False, True], "d": [1, 2, 3, 6],
+        "mode": ["vector", "scalar", "blobs", "blobs2"], "boundary": ["none", "periodic", "reflective", "both"],
+        "metric": ["ess", "vv0.3", "vv2"], "zero": [False, True], "d": [1, 2, 3, 6], "n_particles": [24, 17],
     }
     DEFAULTS = {"clustering": False, "boundary": "none", "metric": "ess", "zero": False, "mode": "vector", "kernel": "tpcn",
                 "resample": "mult", "d": 1}
@@ -94,13 +99,13 @@ class Coherence(RowCheck):
         d = row["d"]
         rng = np.random.default_rng(seed)
         t = Target.from_spec(simple_target_spec(rng, d, row["mode"], zero=row["zero"]))
-        cfg = row_to_cfg(row, d)
+        cfg = row_to_cfg(row, d, seed)
         np.random.seed(seed % 2**31)
         s = make_sampler(t, cfg)
         core = core_of(s)
         st = core.state
         stats = {"mixed": 0, "mut_calls": 0, "records": 0, "neginf_replaced": 0}
-        blobs_on = row["mode"] == "blobs"
+        blobs_on = row["mode"] in ("blobs", "blobs2")
 
         def cur(where):
             c = st.get_current()
